@@ -16,6 +16,35 @@ func zzProbeX() int64 {
 	return x
 }
 
+// zzStablePeers orders the peers independently of Go map iteration order (so that a model of the
+// symbolic run denotes the same peers in the native replay): workloads by name, then IP peers by
+// their start address.
+func zzStablePeers(peers []Peer) []Peer {
+	var ws, ips []Peer
+	for _, p := range peers {
+		if p.IsPeerIPType() {
+			ips = append(ips, p)
+		} else {
+			ws = append(ws, p)
+		}
+	}
+	for i := 1; i < len(ws); i++ {
+		for j := i; j > 0 && ws[j].String() < ws[j-1].String(); j-- {
+			ws[j], ws[j-1] = ws[j-1], ws[j]
+		}
+	}
+	for i := 1; i < len(ips); i++ {
+		for j := i; j > 0; j-- {
+			if zzIPPeerIntervals(ips[j])[0].Start() < zzIPPeerIntervals(ips[j-1])[0].Start() {
+				ips[j], ips[j-1] = ips[j-1], ips[j]
+			} else {
+				break
+			}
+		}
+	}
+	return append(ws, ips...)
+}
+
 // zzEndOf maps a peer of the engine to an end of the oracle's world. For an IP peer a fresh symbolic
 // address inside the peer's range stands for every address of the range.
 func zzEndOf(g *zzGen, p Peer, idx int) zzEnd {
@@ -39,6 +68,7 @@ func zzEndOf(g *zzGen, p Peer, idx int) zzEnd {
 func zzCheckOnePair(g *zzGen, pe *PolicyEngine, label string) {
 	peers, err := pe.GetPeersList()
 	vf_Assert(err == nil, "peers-listed")
+	peers = zzStablePeers(peers)
 	x := zzProbeX()
 	n := len(peers)
 	i := vf_Choose("src", n)
@@ -67,6 +97,7 @@ func zzCheckOnePair(g *zzGen, pe *PolicyEngine, label string) {
 func zzCheckAllPairs(g *zzGen, pe *PolicyEngine, label string) {
 	peers, err := pe.GetPeersList()
 	vf_Assert(err == nil, "peers-listed")
+	peers = zzStablePeers(peers)
 	x := zzProbeX()
 	ends := make([]zzEnd, len(peers))
 	for i, p := range peers {
